@@ -157,24 +157,27 @@ theorem compile_domain_ordered {m : Model (Ext K)} {t : K} (h0 : 0 ≤ t) (h1 : 
   unfold Compile.linearize at h
   split at h
   · cases h
-  · rename_i cs hcs
-    dsimp only at h
-    have hfin' := hfin
-    simp only [Lin.FiniteLits, Bool.and_eq_true, List.all_eq_true] at hfin'
-    have hcf : ∀ c ∈ cs, ConFin c := normalizedForBounds_fin _ _ (fun c hc => hfin'.2 c hc) hcs
-    have hok := declOK_of hnd hi hdecl hord
-    have hvb := enforceable_VBP (dom := m.domain) hdecl (analyze_VBP hdecl hcf (.fin t) maxSteps)
-      (by rw [analyze_tolerance]; rfl)
-    have hordD : ∀ d ∈ m.domain, Ordered (Bounds.ofVarType d.ty) := fun d hd => by
-      have := ordB_ofVarType (hord d hd)
-      cases hty : d.ty <;> rw [hty] at this <;> exact this
-    have hob := enforceable_ordered hok.nodup cs h0 h1 maxSteps hordD
-    refine Lin.domain_ordered hfin (boundsProper_of_VBP hvb) (applyToDomain_proper hdecl hvb) ?_
-      (applyToDomain_ordered hok hdecl hord cs hcf h0 h1 maxSteps) h
-    intro x
-    show OrdB (Lin.varBounds (ucM _) x)
-    rw [varBounds_ucM]
-    exact hob x
+  · -- past the up-front collapse check (rooc e35561f)
+    split at h
+    · cases h
+    · rename_i cs hcs
+      dsimp only at h
+      have hfin' := hfin
+      simp only [Lin.FiniteLits, Bool.and_eq_true, List.all_eq_true] at hfin'
+      have hcf : ∀ c ∈ cs, ConFin c := normalizedForBounds_fin _ _ (fun c hc => hfin'.2 c hc) hcs
+      have hok := declOK_of hnd hi hdecl hord
+      have hvb := enforceable_VBP (dom := m.domain) hdecl (analyze_VBP hdecl hcf (.fin t) maxSteps)
+        (by rw [analyze_tolerance]; rfl)
+      have hordD : ∀ d ∈ m.domain, Ordered (Bounds.ofVarType d.ty) := fun d hd => by
+        have := ordB_ofVarType (hord d hd)
+        cases hty : d.ty <;> rw [hty] at this <;> exact this
+      have hob := enforceable_ordered hok.nodup cs h0 h1 maxSteps hordD
+      refine Lin.domain_ordered hfin (boundsProper_of_VBP hvb) (applyToDomain_proper hdecl hvb) ?_
+        (applyToDomain_ordered hok hdecl hord cs hcf h0 h1 maxSteps) h
+      intro x
+      show OrdB (Lin.varBounds (ucM _) x)
+      rw [varBounds_ucM]
+      exact hob x
 
 /-- the oracle's decidable check is the predicate of the theorem. -/
 theorem typeOrdered_iff (ty : VarType (Ext K)) : WF.typeOrdered ty = true ↔ Lin.OrdT ty := by
